@@ -148,7 +148,9 @@ fn hand_encoded_v5_line_program(m: &ModuleD, plan: &DwarfPlan) -> Vec<u8> {
 
 /// Build the .debug_* sections for `m` under `plan`.
 pub fn synthesize(m: &ModuleD, plan: &DwarfPlan) -> Option<Vec<(String, Vec<u8>)>> {
-    let cs = m.code_section_start? as u64;
+    // a module without local functions has no code section: its DWARF is a
+    // compile unit without subprograms and an empty line program
+    let cs = if m.funcs.is_empty() { 0 } else { m.code_section_start? as u64 };
     let encoding = gimli::Encoding {
         format: gimli::Format::Dwarf32,
         version: plan.version,
@@ -288,6 +290,22 @@ pub fn attach(bytes: &[u8], m: &ModuleD, plan: &DwarfPlan) -> Option<Vec<u8>> {
         out.extend_from_slice(&payload);
     }
     Some(out)
+}
+
+/// DWARF (v4, no subprograms, empty line program) for a module without code
+pub fn attach_dwarf_codeless(bytes: &[u8]) -> Option<Vec<u8>> {
+    let m = decode(bytes).ok()?;
+    if !m.funcs.is_empty() {
+        return None;
+    }
+    let plan = DwarfPlan {
+        version: 4,
+        low_pc_at_body: true,
+        sequences: vec![],
+        row_at_function_start: false,
+        cu_range: false,
+    };
+    attach(bytes, &m, &plan)
 }
 
 pub fn attach_dwarf(bytes: &[u8], ch: &mut Ch) -> Option<Vec<u8>> {
